@@ -235,10 +235,41 @@ def rectangular_rule(ctx, p):
     got = {k: norm_text(wire.strip_np_array(v)) for k, v in wire.kw(cs[0], callee).items()} if len(cs) == 1 else {}
     ctx.ob(rule, m.key + ":cell-index", got == {"grid_scaled_2d_slim": "self.source_plane_data_grid", "shape_native": "self.source_plane_mesh_grid.shape_native", "pixel_scales": "self.source_plane_mesh_grid.pixel_scales", "origin": "self.source_plane_mesh_grid.origin"},
            where=m, node=cs[0] if cs else m.node, construct=str(got), message="the rectangular cell of each point must be found with the mesh's OWN shape, pixel scales and origin")
-    rets = wire.returns_of(m)
-    kwv = {k: norm_text(v) for k, v in wire.kw(rets[0].value).items()} if rets and isinstance(rets[0].value, ast.Call) else {}
-    ok = kwv.get("mappings", "").startswith("mappings") and kwv.get("sizes", "").replace('"', "'") == "np.ones(len(mappings), dtype='int')" and kwv.get("weights", "").replace('"', "'") == "np.ones((len(self.source_plane_data_grid), 1), dtype='int')"
-    ctx.ob(rule, m.key + ":indicator", ok, where=m, node=rets[0] if rets else m.node, construct=str(kwv), message="each point maps to exactly one cell with weight 1 (size 1)")
+    # what is returned, with the locals substituted (sa/paths.py): mappings = <cell index of every point> as an (N, 1) integer column, sizes = N ones, weights = (N, 1) ones
+    from .. import paths
+    PS = paths.returns(paths.path_summaries(m) or [])
+    kwx = paths.kwargs(PS[0].value) if len(PS) == 1 and isinstance(PS[0].value, ast.Call) else {}
+    kwv = {k: paths.ptext(v)[:160] for k, v in kwx.items()}
+
+    def peel(e):
+        """strip .astype(..) / .reshape(..) method calls: the array they were applied to"""
+        while isinstance(e, ast.Call) and isinstance(e.func, ast.Attribute) and e.func.attr in ("astype", "reshape"):
+            e = e.func.value
+        return e
+
+    def is_cell_index(e):
+        return isinstance(e, ast.Call) and paths.ptext(e.func).endswith("grid_pixel_indexes_2d_slim_from")
+
+    def is_count(e):
+        """N: the number of points"""
+        if isinstance(e, ast.Call) and paths.ptext(e.func) == "len" and len(e.args) == 1:
+            return is_cell_index(peel(e.args[0])) or paths.ptext(e.args[0]) == "self.source_plane_data_grid"
+        if isinstance(e, ast.Subscript) and isinstance(e.value, ast.Attribute) and e.value.attr == "shape" and paths.ptext(e.slice) == "0":
+            return is_cell_index(peel(e.value.value)) or paths.ptext(e.value.value) == "self.source_plane_data_grid"
+        return False
+
+    def column(e):
+        """(N, 1)"""
+        return isinstance(e, ast.Tuple) and len(e.elts) == 2 and is_count(e.elts[0]) and paths.ptext(e.elts[1]) == "1"
+
+    def ones(e, shape_ok):
+        return isinstance(e, ast.Call) and paths.ptext(e.func) in ("np.ones", "numpy.ones") and len(e.args) == 1 and shape_ok(e.args[0]) and {k.arg: paths.ptext(k.value) for k in e.keywords} == {"dtype": "'int'"}
+    mp = kwx.get("mappings")
+    resh = [c_ for c_ in ast.walk(mp) if isinstance(c_, ast.Call) and isinstance(c_.func, ast.Attribute) and c_.func.attr == "reshape"] if mp is not None else []
+    ast_int = [c_ for c_ in ast.walk(mp) if isinstance(c_, ast.Call) and isinstance(c_.func, ast.Attribute) and c_.func.attr == "astype" and [paths.ptext(a_) for a_ in c_.args] + [paths.ptext(k.value) for k in c_.keywords] == ["'int'"]] if mp is not None else []
+    ok = mp is not None and is_cell_index(peel(mp)) and bool(ast_int) and bool(resh) and all(len(c_.args) == 1 and column(c_.args[0]) for c_ in resh) \
+        and ones(kwx.get("sizes"), is_count) and ones(kwx.get("weights"), column) and set(kwx) == {"mappings", "sizes", "weights"}
+    ctx.ob(rule, m.key + ":indicator", ok, where=m, node=(PS[0].node if PS else None) or m.node, construct=str(kwv), message="each point maps to exactly one cell with weight 1 (size 1)")
 
 
 def wiring_rule(ctx, p):
@@ -443,10 +474,15 @@ def neighbors_rule(ctx, p, K):
     ok = txt.get("(indptr, indices)") == "self.delaunay.vertex_neighbor_vertices" and sizes_ok and len(loops) == 1 and norm_text(loops[0].iter) in ("range(self.parameters)", "range(len(sizes))", "range(sizes.shape[0])")
     if ok:
         k = norm_text(loops[0].target)
-        b = loops[0].body
-        ok = len(b) == 1 and isinstance(b[0], ast.Assign) and len(b[0].targets) == 1 \
-            and index_form(b[0].targets[0]) == ("neighbors", (("at", _P(k)), ("slice", ZERO, _P(f"sizes[{k}]")))) \
-            and index_form(b[0].value) == ("indices", (("slice", _P(f"indptr[{k}]"), _P(f"indptr[{k} + 1]")),))
+        # one pass through the loop body with its temporaries substituted (sa/paths.py): neighbors[k, 0 : sizes[k]] = indices[indptr[k] : indptr[k + 1]]
+        from .. import paths
+        PSb = paths.path_summaries(d, body=loops[0].body) or []
+        sp = paths.store_parts(PSb[0].env.get("neighbors")) if len(PSb) == 1 and PSb[0].kind == "fall" else None
+        ok = sp is not None and paths.ptext(sp[0]) == "neighbors"
+        if ok:
+            tgt = ast.Subscript(value=ast.Name(id="neighbors", ctx=ast.Load()), slice=sp[1], ctx=ast.Load())
+            ok = index_form(tgt) == ("neighbors", (("at", _P(k)), ("slice", ZERO, _P(f"sizes[{k}]")))) \
+                and index_form(sp[2]) == ("indices", (("slice", _P(f"indptr[{k}]"), _P(f"indptr[{k} + 1]")),))
     ctx.ob(rule, d.key, ok, where=d, node=d.node, construct=str({k_: v_ for k_, v_ in txt.items() if k_ in ("(indptr, indices)", "sizes")}),
            message="Delaunay neighbours must be scipy's vertex adjacency: row k = indices[indptr[k] : indptr[k + 1]], size k = indptr[k + 1] - indptr[k]")
 
